@@ -64,26 +64,43 @@ type upPart struct {
 	Field, FileName, Content string
 }
 
-// post sends a multipart upload and returns status code, body.
+const vBoundary = "verifboundary0123456789"
+
+// mwPostN writes the multipart encoding of the first n parts to w (without
+// the closing boundary).
+func mwPostN(parts []upPart, n int, w io.Writer) *multipart.Writer {
+	mw := multipart.NewWriter(w)
+	mw.SetBoundary(vBoundary)
+	for _, p := range parts[:n] {
+		var pw io.Writer
+		if p.Field == "file" {
+			pw, _ = mw.CreateFormFile("file", p.FileName)
+		} else {
+			pw, _ = mw.CreateFormField(p.Field)
+		}
+		io.WriteString(pw, p.Content)
+	}
+	return mw
+}
+
+// mwPost writes the complete multipart body.
+func mwPost(parts []upPart, w io.Writer) string {
+	mw := mwPostN(parts, len(parts), w)
+	mw.Close()
+	return mw.FormDataContentType()
+}
+
+// post sends a multipart upload (cut after truncate bytes if truncate >= 0)
+// and returns status code and body.
 func (v *vApp) post(parts []upPart, truncate int) (int, string) {
 	var body bytes.Buffer
-	mw := multipart.NewWriter(&body)
-	for _, p := range parts {
-		var w io.Writer
-		if p.Field == "file" {
-			w, _ = mw.CreateFormFile("file", p.FileName)
-		} else {
-			w, _ = mw.CreateFormField(p.Field)
-		}
-		io.WriteString(w, p.Content)
-	}
-	mw.Close()
+	ctype := mwPost(parts, &body)
 	b := body.Bytes()
 	if truncate >= 0 && truncate < len(b) {
 		b = b[:truncate]
 	}
 	req := httptest.NewRequest("POST", "/upload", bytes.NewReader(b))
-	req.Header.Set("Content-Type", mw.FormDataContentType())
+	req.Header.Set("Content-Type", ctype)
 	rec := httptest.NewRecorder()
 	v.mux.ServeHTTP(rec, req)
 	return rec.Code, rec.Body.String()
